@@ -17,7 +17,7 @@ from harness.lib import scen
 from harness.lib.core import VERIF, Ctx, lean_lock
 from harness.rigs import request_schema as rig
 
-MODULES = ["PrimaiteModel.Props.C05Schema", "PrimaiteModel.Props.C05Guards"]
+MODULES = ["PrimaiteModel.Props.C05Schema", "PrimaiteModel.Props.C05Guards", "PrimaiteModel.Props.C05Inst"]
 EXE = "drv_c05x"
 QUICK_SCEN = ["data_manipulation", "basic_firewall", "basic_switched_network", "multi_lan_internet_network_example"]
 SKIP = {"bad_primaite_session", "no_nodes_links_agents_network"}
